@@ -71,6 +71,12 @@ def run(rep, tier):
         pR, pZ = common.psi_partial(ctx, 1, 0, R, Z), common.psi_partial(ctx, 0, 1, R, Z)
         rep.ob("R1", "%s: f . grad(psi) == 1 (d psi/d psi along the curve)" % option, (fR * pR + fZ * pZ - 1).is_zero(), m.builder.site(), "", key="field/%s/dot" % option)
         rep.ob("R1", "%s: f x grad(psi) == 0 (the curve follows grad psi)" % option, (fR * pZ - fZ * pR).is_zero(), m.builder.site(), "", key="field/%s/cross" % option)
+    # R1c: the clamp applied to (R,Z) before differentiating is the identity on the tabulated box
+    sites = common.clip_bound_sites(m.builder)
+    for c, fname, ok, detail in sites:
+        rep.ob("R1", "%s: clamp bound of `%s` is the min/max of the grid axis that coordinate runs along" % (fname, T(m.builder.module, c.args[0]) if c.args else "?"), ok,
+               m.builder.site(c), detail, key="clip/%s/%s" % (fname, T(m.builder.module, c.args[0]) if c.args else "?"))
+    rep.floor("R1.clip-sites", len(sites), 4)
     ctx = Context()
     opaque = {"psi_r": ("dpsidr_r",), "dpsidr_r": ("d2psidr2_r",), "d2psidr2_r": (None,)}
     ex = ClassEx(prog, ctx, "CircularEquilibrium", opaque=opaque)
